@@ -1,3 +1,6 @@
+// Thorough-tier sizes of the checks that observe the whole database after every statement are bounded by memory,
+// not time: the process under test keeps a few hundred bytes per executed query for its whole life (seen as
+// ~0.5-1 MB of resident memory per generated history), so 120 000 histories in one process need > 50 GB.
 //! History-driven checks that share the E-hist interpreter: C04 C06 C07 C09 C12 C21.
 
 use std::collections::BTreeSet;
@@ -130,7 +133,7 @@ pub fn c06(tier: Tier, replay: Option<String>) -> i32 {
     ctx.assume("AUTO_INCREMENT counters are not part of the compared state (SQL permits gaps after failed statements)");
     let p = Profile { max_ops: 25, truncate: 1, ..Profile::default() };
     let pb = Profile { max_ops: 50, big_keys: true, max_insert_rows: 10, prefill: true, ..Profile::default() };
-    let cases = tier.pick(3000, 120_000);
+    let cases = tier.pick(3000, 30_000);
     drive_hist(&ctx, &check, move || case_strategy(p.clone(), Some(pb.clone()), true), cases)
 }
 
@@ -162,7 +165,7 @@ pub fn c07(tier: Tier, replay: Option<String>) -> i32 {
         allow_auto_inc: false, allow_fk: false, txn_blocks: true, prefill: true, ..Profile::default()
     };
     let pt = Profile { txn_blocks: true, prefill: true, max_ops: 40, ..p.clone() };
-    let cases = tier.pick(3000, 120_000);
+    let cases = tier.pick(3000, 36_000);
     drive_hist(
         &ctx,
         &check,
@@ -199,7 +202,7 @@ pub fn c04(tier: Tier, replay: Option<String>) -> i32 {
     );
     let p = Profile { max_ops: 30, lifecycle: 4, ddl: 2, dml: 10, allow_auto_inc: true, ..Profile::default() };
     let pb = Profile { max_ops: 60, lifecycle: 4, ddl: 1, dml: 12, big_keys: true, max_insert_rows: 12, allow_auto_inc: true, prefill: true, ..Profile::default() };
-    let cases = tier.pick(2500, 100_000);
+    let cases = tier.pick(2500, 20_000);
     drive_hist(&ctx, &check, move || case_strategy(p.clone(), Some(pb.clone()), true), cases)
 }
 
@@ -243,7 +246,7 @@ pub fn c12(tier: Tier, replay: Option<String>) -> i32 {
     );
     ctx.assume("generated ids are identified as the ids present after the INSERT and absent before it; statements mixing explicit and generated ids are only used to move the counter, not judged");
     let p = Profile { max_tables: 2, max_ops: 30, txn: 3, dml: 12, lifecycle: 2, truncate: 1, allow_auto_inc: true, allow_text_pk: false, ..Profile::default() };
-    let cases = tier.pick(3000, 120_000);
+    let cases = tier.pick(3000, 36_000);
     drive_hist(&ctx, &check, move || case_strategy(p.clone(), None, true), cases)
 }
 
@@ -265,6 +268,6 @@ pub fn c21(tier: Tier, replay: Option<String>) -> i32 {
     );
     ctx.assume("ADD COLUMN with a DEFAULT on a table that already has rows is not generated (the property allows default or NULL for existing rows); dropping key/indexed columns is not generated");
     let p = Profile { max_tables: 2, max_ops: 30, ddl: 6, dml: 10, lifecycle: 2, truncate: 1, prefill: true, ..Profile::default() };
-    let cases = tier.pick(3000, 120_000);
+    let cases = tier.pick(3000, 15_000);
     drive_hist(&ctx, &check, move || case_strategy(p.clone(), None, false), cases)
 }
